@@ -12,6 +12,11 @@ MODULES = ["cvss", "cvss.cvss2", "cvss.cvss3", "cvss.cvss4", "cvss.constants2", 
            "cvss.exceptions", "cvss.parser", "cvss.interactive", "cvss.cvss_calculator"]
 
 
+def corpus_unesc(s):
+    from common import unesc
+    return unesc(s)
+
+
 def norm_obj(o):
     """projection of an observation in which only outputs of the library remain"""
     if o.get("cls") != "ok":
@@ -75,6 +80,10 @@ def run(prop, tier, seed):
             items.append({"op": "construct", "ver": rnd.choice("234"), "s": esc(s), "json": False})
         pool = [(v[0], v[3], None) for v in vs[::5]]
         items += [{"op": "fromrh", "ver": ver, "s": esc(s), "json": False} for ver, s in corpus.rh_strings(rnd, 500 if not big else 8000, pool)]
+        # number parsing / printing differs most between interpreters: wild score texts around the *true* base score
+        truth = record_events([{"op": "construct", "ver": v, "s": esc(s), "json": False} for v, s, _ in pool[:120]], work, name="truth")
+        pool2 = [(e["ver"], corpus_unesc(e["s"]), e["out"]["scores"][0]) for e in truth if e["out"]["cls"] == "ok"]
+        items += [{"op": "fromrh", "ver": ver, "s": esc(s), "json": False} for ver, s in corpus.rh_numeric_wild(rnd, 700 if not big else 10000, pool2)]
         from props.text13 import assembled_texts
         items += [{"op": "text", "text": esc(t)} for t in assembled_texts(rnd, 300 if not big else 5000)]
         sess = interactive16.targeted_scripts(rnd)
@@ -102,6 +111,8 @@ def run(prop, tier, seed):
                         tag = "cli:" + ",".join(sorted(a for a in it["args"] if a in ("-2", "-3", "-4")))
                     elif kind == "events" and it["op"] == "fromrh" and "_" in it["s"].split("/")[0]:
                         tag = "rh-score-text-with-underscore"
+                    elif kind == "events" and it["op"] == "fromrh" and re.search(r"\{(28|29|30|31)\}", it["s"].split("/")[0]):
+                        tag = "rh-score-text-with-separator-control-character"
                     pairs.append({"python": v.rsplit(".", 1)[0], "kind": kind, "k": k, "ref": ref[kind][k], "got": norm(kind, g),
                                   "input": json.dumps(it)[:400], "tag": tag})
         c.evaluations += len(pairs)
